@@ -115,6 +115,8 @@ func (c *ctx) one(e *tlx.Entry, class, id string, data []byte, gz bool) {
 	if c.seq < c.from {
 		return
 	}
+	c.run.Begin(class, id, nil)
+	defer c.run.End()
 	if c.prog != nil {
 		// announce before running: an unrecoverable runtime failure is attributed to this case
 		rec := fmt.Sprintf("%020d %s\n", c.seq, id)
@@ -335,6 +337,7 @@ func worker(run *vr.Run) {
 
 func main() {
 	run := vr.New("C15", "fault_enumeration")
+	defer run.Recover()
 	if run.IsWorker() {
 		worker(run)
 	}
@@ -395,6 +398,8 @@ func main() {
 				switch {
 				case strings.Contains(es, "out of memory"), strings.Contains(es, "cannot allocate memory"):
 					why = "fatal error: out of memory"
+				case strings.Contains(es, "did not return from case"):
+					why = "the decoder never returns"
 				case strings.Contains(es, "stack overflow"), strings.Contains(es, "goroutine stack exceeds"):
 					why = "fatal error: stack overflow"
 				case strings.Contains(es, "fatal error"):
